@@ -31,7 +31,9 @@ func (r *RigR) vchanFor(collID int64, srcPCh string) (string, *RColl) {
 	return "", c
 }
 
-func isData(k string) bool { return k == "ins" || k == "del" || k == "dropp" || k == "dropc" || k == "imp" }
+func isData(k string) bool {
+	return k == "ins" || k == "del" || k == "dropp" || k == "dropc" || k == "imp"
+}
 
 func (r *RigR) oracles() {
 	s := r.sim
